@@ -671,13 +671,11 @@ theorem opInv_W (s : St) (secs : List Int) (now : Int) (h : WInv s) : WInv (opIn
 
 theorem occ_nil (cid : Nat) : occ cid [] = 0 := by simp [occ]
 
-theorem finApply_B (s : St) (l : Loader) (first : LChunk) (rest : List LChunk) (ok : Bool) (ver : Nat) (now : Int)
+theorem finPre_B (s : St) (l : Loader) (first : LChunk) (rest : List LChunk) (ok : Bool) (ver : Nat)
     (hl : l ∈ s.loaders) (hch : l.chunks = first :: rest) (hpnd : l.loadPending = true) (h : Both s) :
-    Both (finApply s l first ok ver now) := by
+    Both (finPre s l first ok ver) := by
   obtain ⟨hp, hw⟩ := h
   have hP := finPre_P s l first rest ok ver hl hch hp
-  rw [finApply_eq]
-  apply afterUpdate_B
   refine ⟨hP, ?_⟩
   clear hP
   unfold finPre
@@ -734,6 +732,12 @@ theorem finApply_B (s : St) (l : Loader) (first : LChunk) (rest : List LChunk) (
       rw [dl, dd cid]
       exact n2 cid hc
   exact hpre
+
+theorem finApply_B (s : St) (l : Loader) (first : LChunk) (rest : List LChunk) (ok : Bool) (ver : Nat) (now : Int)
+    (hl : l ∈ s.loaders) (hch : l.chunks = first :: rest) (hpnd : l.loadPending = true) (h : Both s) :
+    Both (finApply s l first ok ver now) := by
+  rw [finApply_eq]
+  exact afterUpdate_B _ _ (finPre_B s l first rest ok ver hl hch hpnd h)
 
 
 /-! ### request begin (`init`) -/
